@@ -170,6 +170,24 @@ func registerBig(reg func(string, externalFn)) {
 		}
 		return mkBool(C.And(C.Not(x.neg), fits))
 	})
+	reg(m("Int64"), func(in *Interp, fr *frame, args []value) value {
+		C := in.p.C
+		x := in.bigOf(args[0])
+		lo := C.Resize(x.mag, 64, false)
+		return mkIntTerm(64, true, C.Ite(x.neg, C.BvNeg(lo), lo))
+	})
+	reg(m("IsInt64"), func(in *Interp, fr *frame, args []value) value {
+		C := in.p.C
+		x := in.bigOf(args[0])
+		w := x.mag.S.W
+		if w < 65 {
+			w = 65
+		}
+		mg := C.Resize(x.mag, w, false)
+		pos := C.Cmp(smt.OpBvUlt, mg, C.BVConst(1<<63, w))
+		negOK := C.Cmp(smt.OpBvUle, mg, C.BVConst(1<<63, w))
+		return mkBool(C.Ite(x.neg, negOK, pos))
+	})
 	reg(m("Uint64"), func(in *Interp, fr *frame, args []value) value {
 		x := in.bigOf(args[0])
 		return mkIntTerm(64, false, in.p.C.Resize(x.mag, 64, false))
